@@ -241,7 +241,7 @@ impl Machine for EpMachine {
                     }
                     "cdisc" => { c.disconnect(); String::from("ok") }
                     "cdiscnow" => { c.disconnect_now(); String::from("ok") }
-                    _ => format!("active={} sbs={}", c.is_active() as u8, c.send_buffer_size()),
+                    _ => format!("active={} sbs={} rtt={}", c.is_active() as u8, c.send_buffer_size(), c.rtt_s().map_or(String::from("-"), |v| v.to_bits().to_string())),
                 }
             }
             "ssend" | "sdisc" | "sdiscnow" | "sdrop" | "sget" => {
@@ -264,7 +264,7 @@ impl Machine for EpMachine {
                     }
                     "sdisc" => { c.disconnect(); String::from("ok") }
                     "sdiscnow" => { c.disconnect_now(); String::from("ok") }
-                    _ => format!("active={} sbs={}", c.is_active() as u8, c.send_buffer_size()),
+                    _ => format!("active={} sbs={} rtt={}", c.is_active() as u8, c.send_buffer_size(), c.rtt_s().map_or(String::from("-"), |v| v.to_bits().to_string())),
                 }
             }
             _ => bad(),
